@@ -59,6 +59,28 @@ fn main() {
         let tol = [1e-6, 1e-9][trial % 2] * lead.abs().max(1.0);
         check(&format!("trial {trial} deg {deg} lead {lead} roots {roots:?}"), re, cc, &roots, tol, &mut found);
     }
+    // small coefficients with a lowered zero tolerance: the polynomial's OWN tolerance (not the default 1e-10) must govern the deflation
+    for (k, lead) in [2.5e-11f64, 1e-12, -4e-11].iter().enumerate() {
+        for roots in [vec![-1.5, 0.3, 1.0, 2.0], vec![-2.0, -0.7, 0.4, 1.1, 1.9, 2.8], vec![0.25, 1.0, 3.0]] {
+            let truth: Vec<C> = roots.iter().map(|r| C::new(*r, 0.0)).collect();
+            let cc = expand(&truth, *lead);
+            let mut p = Polynomial::<f64>::from_slice(&cc.iter().rev().map(|c| c.re).collect::<Vec<f64>>());
+            p.set_tolerance(1e-20).unwrap();
+            let name = format!("small lead {lead:e} (case {k}), own tolerance 1e-20, roots {roots:?}");
+            match p.roots(1e-14, 1000) {
+                Err(e) => found.push(format!("{name}: roots() returned Err({e})")),
+                Ok(rs) => {
+                    if rs.len() != roots.len() { found.push(format!("{name}: {} roots for degree {}", rs.len(), roots.len())); continue; }
+                    for t in truth.iter() { if rs.iter().filter(|r| (**r - *t).norm() < 1e-6).count() != 1 { found.push(format!("{name}: true root {t} not returned exactly once: {rs:?}")); break; } }
+                }
+            }
+        }
+    }
+    match laguerre_zeros::<f64>(14, 5e-12, 1e-40, 10000) {
+        Err(e) => found.push(format!("laguerre_zeros(14, 5e-12, 1e-40) = Err({e})")),
+        Ok(mut z) => { z.sort_by(|a, b| a.partial_cmp(b).unwrap());
+            if z.len() != 14 || z.windows(2).any(|w| (w[1] - w[0]).abs() < 1e-6) { found.push(format!("laguerre_zeros(14) with a small polynomial tolerance: not 14 distinct zeros: {z:?}")); } }
+    }
     // orthogonal polynomial zeros
     for n in 0..=12u32 {
         for (nm, r, lo, hi) in [("legendre", legendre_zeros::<f64>(n, 1e-10, 1e-12, 1000), -1.0, 1.0), ("hermite", hermite_zeros::<f64>(n, 1e-10, 1e-12, 1000), -1e9, 1e9), ("laguerre", laguerre_zeros::<f64>(n, 1e-10, 1e-12, 1000), 0.0, 1e9)] {
